@@ -147,7 +147,7 @@ theorem idealCache_valOK : CacheValOK idealCache := fun _ _ _ _ _ => rfl
 /-- the identity order with fresh ideal caches: a legal execution of every call, with a `pi_noprint` (`piFn = 0`) that is
     WRONG everywhere — it is never consulted -/
 theorem ideal_callRunOK (x a : ℕ) : CallRunOK idealTop (List.range' 9 (a - 8)) (fun _ => (idealCache, 0)) x a :=
-  { top := idealTop_callOK x, order := List.Perm.refl _, cache := fun _ => cacheOK_initial idealCache_valOK }
+  { top := idealTop_callOK x, order := List.Perm.refl _, cache := fun _ _ _ => cacheOK_initial idealCache_valOK }
 
 theorem ideal_phiExec (n : ℕ) :
     PhiExec (fun _ _ => idealTop) (fun _ a => List.range' 9 (a - 8)) (fun _ _ _ => (idealCache, 0)) n :=
